@@ -83,7 +83,9 @@ CFG = {
         dict(test="^TestC14Run$", checks=(1500, 60000))]),
     "C15": dict(pkg="core", test="^TestC15$", shards=(8, 16), checks=(20000, 400000)),
     "C16": dict(pkg="core", test="^TestC16$", shards=(1, 1), checks=(1, 1)),
-    "C17": dict(pkg="zexchk", test="^TestC17$", shards=(1, 1), checks=(1, 1)),
+    "C17": dict(pkg="zexchk", shards=(1, 1), tests=[
+        dict(test="^TestC17$", checks=(1, 1)),
+        dict(test="^TestC17$", checks=(1, 1), race=True)]),
     "C18": dict(pkg="cpm", race=True, shards=(8, 16), tests=[
         dict(test="^TestC18$", checks=(1500, 40000)),
         dict(test="^TestC18Concurrent$", checks=(40, 2000))]),
@@ -225,6 +227,13 @@ def _run_check(prop, tier, cfg, seed, ti, work, t0):
     results = {}
     inconclusive = False
     deadline = time.time() + timeout
+    # tests marked race=True run from a second binary of the same package built with -race (another build
+    # configuration of the code under test: build tags, the race detector's instrumentation)
+    race_binp = None
+    if any(tc.get("race") for tc in tests) and not cfg.get("race"):
+        race_binp = build(work, cfg["pkg"], True)
+        if race_binp is None:
+            return 2
 
     def shard_worker(s):
         sd = os.path.join(work, "shard-%d" % s)
@@ -238,7 +247,8 @@ def _run_check(prop, tier, cfg, seed, ti, work, t0):
         with open(os.path.join(sd, "log.txt"), "w") as lf:
             for ti_, tc in enumerate(tests):
                 rseed = (seed * 1000003 + s * 7919 + ti_ * 104729 + 1) & 0x7fffffffffffffff or 1
-                args = [binp, "-test.run", tc["test"], "-test.timeout", "%ds" % (timeout + 60),
+                e["VERIF_BUILDCFG"] = "race" if tc.get("race") else ""
+                args = [race_binp if (tc.get("race") and race_binp) else binp, "-test.run", tc["test"], "-test.timeout", "%ds" % (timeout + 60),
                         "-rapid.seed=%d" % rseed, "-rapid.checks=%d" % tc["checks"][ti], "-rapid.nofailfile",
                         "-rapid.shrinktime=%s" % cfg.get("shrinktime", "20s")]
                 if tc.get("steps"):
@@ -395,7 +405,9 @@ def run_replay(path):
     cfg = CFG[prop]
     work = tempfile.mkdtemp(prefix="verif-replay-")
     try:
-        binp = build(work, cfg["pkg"], cfg.get("race", False))
+        # a case found in another build configuration (found_by mentions it) is replayed in that configuration
+        race = cfg.get("race", False) or "build=race" in doc.get("found_by", "")
+        binp = build(work, cfg["pkg"], race)
         if binp is None:
             return 2
         e = goenv()
